@@ -17,7 +17,21 @@ open PolyVerif PolyVerif.PolyJson
 
 /-! ### canon: printing -/
 
-def cS (s : S) : String := "s" ++ ".".intercalate (s.map toString)
+def cSPlain (s : S) : String := "s" ++ ".".intercalate (s.map toString)
+
+/-- smallest `p ≤ 64` such that `s` is its first `p` code points repeated (tried from `p` upwards, fuel `k`) -/
+def periodFrom (s : S) (n : Nat) : Nat → Nat → Option Nat
+  | 0, _ => none
+  | k + 1, p => if n % p == 0 && s.drop p == s.take (n - p) then some p else periodFrom s n k (p + 1)
+
+/-- a string token.  Long exactly-periodic strings (genome-sized test sequences) are written
+`r<count>*s<unit>`; the harness uses the same rule (ops_c15.go `c15StrTok`) -/
+def cS (s : S) : String :=
+  let n := s.length
+  if n < 4096 then cSPlain s
+  else match periodFrom s n 64 1 with
+    | some p => s!"r{n / p}*" ++ cSPlain (s.take p)
+    | none => cSPlain s
 def cI (i : Int) : String := "i" ++ toString i
 def cB (b : Bool) : String := if b then "b1" else "b0"
 
@@ -58,20 +72,22 @@ def cMeta (m : Meta) : List String :=
    "Keywords", cS m.keywords, "Organism", cS m.organism, "Source", cS m.source, "Origin", cS m.origin,
    "Locus"] ++ cLocus m.locus ++ ["References"] ++ cSlice cRef m.references ++ ["Other"] ++ cMap m.other ++ ["}"]
 
-def cFeature (f : Feature) : List String :=
+def cFeature (root : S) (f : Feature) : List String :=
   ["{", "Name", cS f.name, "Source", cS f.source, "Type", cS f.type, "Score", cS f.score,
    "Strand", cS f.strand, "Phase", cS f.phase, "Attributes"] ++ cMap f.attributes ++
   ["GbkLocationString", cS f.gbkLocationString, "Sequence", cS f.sequence, "SequenceLocation"] ++
   cLoc f.sequenceLocation ++
   ["SequenceHash", cS f.sequenceHash, "Description", cS f.description,
    "SequenceHashFunction", cS f.sequenceHashFunction, "ParentSequence"] ++
-  (match f.parent with | none => ["nil"] | some p => ["^", cS p]) ++ ["}"]
+  (match f.parent with
+   | none => ["nil"]
+   | some p => if p == root then ["^", "="] else ["^", cS p]) ++ ["}"]
 
 def cSeq (x : Sequence) : List String :=
   ["{", "Meta"] ++ cMeta x.metadata ++
   ["Description", cS x.description, "SequenceHash", cS x.sequenceHash,
    "SequenceHashFunction", cS x.sequenceHashFunction, "Sequence", cS x.sequence, "Features"] ++
-  cSlice cFeature x.features ++ ["}"]
+  cSlice (cFeature x.sequence) x.features ++ ["}"]
 
 def canon (x : Sequence) : String := " ".intercalate (cSeq x)
 
@@ -79,11 +95,22 @@ def canon (x : Sequence) : String := " ".intercalate (cSeq x)
 
 abbrev P (α : Type) := List String → Option (α × List String)
 
-def pSTok (t : String) : Option S :=
+def pSTokPlain (t : String) : Option S :=
   match t.toList with
   | 's' :: rest =>
     if rest.isEmpty then some [] else ((String.ofList rest).splitOn ".").mapM String.toNat?
   | _ => none
+
+def pSTok (t : String) : Option S :=
+  match t.toList with
+  | 'r' :: rest =>
+    match (String.ofList rest).splitOn "*" with
+    | [count, unit] =>
+      match count.toNat?, pSTokPlain unit with
+      | some k, some u => some (List.replicate k u).flatten
+      | _, _ => none
+    | _ => none
+  | _ => pSTokPlain t
 
 def pStr : P S
   | t :: ts => (pSTok t).map (·, ts)
@@ -223,12 +250,13 @@ def pMeta : P Meta := pStruct Meta.zero fun name m =>
   | "Other" => with_ pMap fun v => { m with other := v }
   | _ => fun _ => none
 
-def pParent : P (Option S)
+def pParent (root : S) : P (Option S)
   | "nil" :: ts => some (none, ts)
+  | "^" :: "=" :: ts => some (some root, ts)
   | "^" :: t :: ts => (pSTok t).map fun s => (some s, ts)
   | _ => none
 
-def pFeature : P Feature := pStruct Feature.zero fun name f =>
+def pFeature (root : S) : P Feature := pStruct Feature.zero fun name f =>
   match name with
   | "Name" => with_ pStr fun v => { f with name := v }
   | "Source" => with_ pStr fun v => { f with source := v }
@@ -243,7 +271,7 @@ def pFeature : P Feature := pStruct Feature.zero fun name f =>
   | "SequenceHash" => with_ pStr fun v => { f with sequenceHash := v }
   | "Description" => with_ pStr fun v => { f with description := v }
   | "SequenceHashFunction" => with_ pStr fun v => { f with sequenceHashFunction := v }
-  | "ParentSequence" => with_ pParent fun v => { f with parent := v }
+  | "ParentSequence" => with_ (pParent root) fun v => { f with parent := v }
   | _ => fun _ => none
 
 def pSeq : P Sequence := pStruct Sequence.zero fun name x =>
@@ -253,7 +281,7 @@ def pSeq : P Sequence := pStruct Sequence.zero fun name x =>
   | "SequenceHash" => with_ pStr fun v => { x with sequenceHash := v }
   | "SequenceHashFunction" => with_ pStr fun v => { x with sequenceHashFunction := v }
   | "Sequence" => with_ pStr fun v => { x with sequence := v }
-  | "Features" => with_ (pSlice pFeature) fun v => { x with features := v }
+  | "Features" => with_ (pSlice (pFeature x.sequence)) fun v => { x with features := v }
   | _ => fun _ => none
 
 def uncanon (text : String) : Option Sequence :=
@@ -378,6 +406,17 @@ def getSeqLinkedSame (x : Sequence) (replies : String) : Bool :=
     rs.length == fs.length &&
       (fs.zip rs).all fun p => p.1.parent != some x.sequence || p.2 == outcomeStr p.1.getSeq
 
+/-- clause 2 per feature, on the implementation's replies only: as many replies as the value has features, before
+and after, and every feature that was linked to `x` before reports after the round trip what it reported before -/
+def linkedReportsAgree (x : Sequence) (before after : String) : Bool :=
+  let fs := x.features.getD []
+  if fs.isEmpty then before == "" && after == ""
+  else
+    let bs := before.splitOn ","
+    let as := after.splitOn ","
+    bs.length == fs.length && as.length == fs.length &&
+      (fs.zip (bs.zip as)).all fun p => p.1.parent != some x.sequence || p.2.1 == p.2.2
+
 def jsonOf (text : String) : Option JVal := JsonRead.parse (ofStr text)
 def sameJ (a : Option JVal) (b : JVal) : Bool :=
   match a with
@@ -418,15 +457,15 @@ def mutate (n : Nat) (j : JVal) : JVal := (mutJ (n / 7) (n % 97) j).2
 /-! ### case text -/
 
 /-- `\u{HEX}` escapes in generated file texts (case lines are kept ASCII) -/
-def unescU : Option Nat → List Char → List Char
-  | none, '\\' :: 'u' :: '{' :: rest => unescU (some 0) rest
-  | none, c :: rest => c :: unescU none rest
-  | none, [] => []
-  | some n, '}' :: rest => Char.ofNat n :: unescU none rest
-  | some n, c :: rest => unescU (some (n * 16 + (JsonRead.hexVal c.toNat).getD 0)) rest
-  | some _, [] => []
+def unescU : Option Nat → List Char → List Char → List Char
+  | none, '\\' :: 'u' :: '{' :: rest, acc => unescU (some 0) rest acc
+  | none, c :: rest, acc => unescU none rest (c :: acc)
+  | none, [], acc => acc.reverse
+  | some n, '}' :: rest, acc => unescU none rest (Char.ofNat n :: acc)
+  | some n, c :: rest, acc => unescU (some (n * 16 + (JsonRead.hexVal c.toNat).getD 0)) rest acc
+  | some _, [], acc => acc.reverse
 
-def fileText (s : String) : String := String.ofList (unescU none s.toList)
+def fileText (s : String) : String := String.ofList (unescU none s.toList [])
 
 def render (f : List String) : List String :=
   match f with
@@ -462,7 +501,13 @@ def judge (f out : List String) : Verdict :=
       let plain := ((allStrings x).all fun t => t.all fun c => 32 ≤ c && c ≤ 126)
         && (x.features.getD []).all (fun f => locNoOverflow f.sequenceLocation)
       match out with
-      | ["ok", jtext, crt, gsx, gsrt, ftext, crd, cfl, gbx, gbrt, gfx, gfrt] =>
+      | ["ok", jtext, crt, gsx, gsrt0, ftext, crd0, cfl0, gbx, gbrt0, gfx, gfrt0] =>
+        -- "=" : the harness found the field byte-identical to the one it is compared with
+        let gsrt := if gsrt0 == "=" then gsx else gsrt0
+        let crd := if crd0 == "=" then crt else crd0
+        let cfl := if cfl0 == "=" then crt else cfl0
+        let gbrt := if gbrt0 == "=" then gbx else gbrt0
+        let gfrt := if gfrt0 == "=" then gfx else gfrt0
         let corrParts : List (String × Bool) := [
           ("marshal", sameJ (jsonOf jtext) mJ),
           ("parse", crt == cRt),
@@ -487,8 +532,7 @@ def judge (f out : List String) : Verdict :=
           ("value after Parse(Marshal x)", valueOk crt),
           ("value after Read(Write x) on a path that held a longer document", valueOk crd),
           ("value after Parse(model-printed JSON)", valueOk cfl),
-          ("features report the same sequence", !linkedB x || gsrt == gsx),
-          ("feature count", (gsrt.splitOn ",").length == (gsx.splitOn ",").length),
+          ("every linked feature reports the same sequence (one reply per feature)", linkedReportsAgree x gsx gsrt),
           ("genbank.Build equal", gbx == gbrt),
           ("gff.Build equal", gfx == gfrt)]
         let badSpec := specParts.filter (!·.2)
@@ -520,7 +564,12 @@ def judge (f out : List String) : Verdict :=
       else { corr := true, judge := none, cls := pre ++ "skip:" ++ why, detail := "" }
     match out with
     | ["ok", st] => skipOr ("parser-" ++ st.drop 1)          -- the parser panicked on the generated file
-    | ["ok", "ok", cp, direct, jtext, crt, via, gsp, gsrt, viaFile, viaPipe, viaWrite] =>
+    | ["ok", "ok", cp, direct, jtext, crt, via0, gsp, gsrt0, viaFile0, viaPipe0, viaWrite0] =>
+      let via := if via0 == "=" then direct else via0
+      let gsrt := if gsrt0 == "=" then gsp else gsrt0
+      let viaFile := if viaFile0 == "=" then direct else viaFile0
+      let viaPipe := if viaPipe0 == "=" then direct else viaPipe0
+      let viaWrite := if viaWrite0 == "=" then direct else viaWrite0
       if cp.startsWith "!" then skipOr "parser-output-unprintable"
       else if hasInvalidTok cp then
         -- NAMED EXCLUSION: a Go string that is not valid UTF-8 (e.g. a Latin-1 byte passed through by the
@@ -549,7 +598,12 @@ def judge (f out : List String) : Verdict :=
           ("value", match uncanon crt with
                     | some r => Spec.Lossless.sameSeq r x && Spec.Lossless.relinkedOK r
                     | none => false),
-          ("features report the same sequence", !gsp.startsWith "!" && gsp == gsrt)]
+          ("every feature reports the same sequence (one reply per feature)",
+            !gsp.startsWith "!" && gsp == gsrt && linkedReportsAgree x gsp gsrt),
+          -- a plain file must give a non-empty text and a non-trivial value (a parser or writer that returns
+          -- nothing would make the comparison vacuous)
+          ("plain file: non-empty text, non-trivial value",
+            !strict || (direct != "ok:" && !(classOf x).startsWith "triv:"))]
         let badSpec := specParts.filter (!·.2)
         { corr := badCorr.isEmpty, judge := if inDomain x then some badSpec.isEmpty else none,
           cls := pre ++ classOf x,
